@@ -37,7 +37,7 @@ PROPS['C06'] = {
 
 PROPS['C03'] = {
     'kani': {
-        'quick': [krun(['c03::q::', 'c03::chains::', 'c15::q::from_heap::'], timeout=900, bounds='N <= 4 (iterator ops: every (front,back) position and one of 10 operations symbolic, nth argument any usize); functional/conversions N in {0,1,3,4}; split/concat/remove/flatten/native on the listed (N,K) / (N,M) instantiations')],
+        'quick': [krun(['c03::q::', 'c03::chains::', 'c15::q::from_heap::', 'c07::q::collect::'], timeout=900, bounds='N <= 4 (iterator ops: every (front,back) position and one of 10 operations symbolic, nth argument any usize); functional/conversions N in {0,1,3,4}; split/concat/remove/flatten/native on the listed (N,K) / (N,M) instantiations')],
         'thorough': [krun(['c03::', 'c15::q::from_heap::', 'c15::t::from_heap::'], timeout=2400, bounds='N <= 8; more (N,K), (N,M) pairs; tuples to arity 12')],
     },
     'functions': ['GenericArrayIter::*', 'GenericArray::{generate,map,zip,fold,clone,from_array,into_array,try_from_iter,from_iter,try_boxed_from_iter,into_vec,into_boxed_slice,try_from_vec,try_from_boxed_slice}',
@@ -189,7 +189,7 @@ PROPS['C15'] = {
 PROPS['C16'] = {
     'kani': {
         'quick': [krun(['c16::q::ops::', 'c16::q::ops_payload::'], flags=['--cbmc-args', '--memory-leak-check'], timeout=900,
-                       bounds='every alloc-feature operation (symbolic selector over 10 operations) x N in {0,1,3} x T in {u64,()} under Kani\'s allocator model (zero-size request and dealloc-size assertions) with --memory-leak-check; heap-payload elements'),
+                       bounds='every alloc-feature operation (11 operations, one harness each) x N in {0,1,3} x T in {u64,()} under Kani\'s allocator model (zero-size request and dealloc-size assertions) with --memory-leak-check; heap-payload elements'),
                   krun(['c16::q::ops_fail::', 'c16::q::ops_align::'], flags=['-Z', 'stubbing'], timeout=900,
                        bounds='allocation failure injected nondeterministically at every alloc::alloc::alloc call (stub); handle_alloc_error stubbed as end-of-path; N in {0,1,3}')],
         'thorough': [krun(['c16::q::ops::', 'c16::q::ops_payload::', 'c16::t::ops::', 'c16::t::ops_payload::'], flags=['--cbmc-args', '--memory-leak-check'], timeout=2400, bounds='N up to 8, more element types'),
